@@ -27,6 +27,16 @@ def rnd_val(rng, mag):
     return rng.choice((-1, 1)) * 10 ** e * rng.uniform(0.1, 1)
 
 
+NEAR_CODE = ((9999.9999, 10000.0), (10000.0, 9999.9999), (3.0, 33333333.0), (99999.999, 1000.0), (-9999.9999, -10000.0),
+             (12345.0, 99999999.05 / 12345.0), (2.0, 49999999.48), (7.0, 99999999.0 / 7.0))
+
+
+def plant(rng):
+    """an operand pair whose PRODUCT lies within 0.1 of the missing-value code while neither operand is
+    missing-coded (both far outside the 0.1 window around the code): an ordinary product, which no kernel may drop"""
+    return rng.choice(NEAR_CODE)
+
+
 def rmat(rng, r, c, mag=None):
     return [[rnd_val(rng, mag) for _ in range(c)] for _ in range(r)]
 
@@ -65,6 +75,10 @@ def run(ck, rng, tier):
     for (m, n, p) in shapes:
         mag = rng.choice((None, None, -5, 0, 5))
         A, B, R0 = rmat(rng, m, n, mag), rmat(rng, n, p, mag), (rmat(rng, m, p, mag) if rng.random() < 0.5 else [[0.0] * p for _ in range(m)])
+        if m and n and p and rng.random() < 0.12:
+            a_, b_ = plant(rng); l_ = rng.randrange(n)
+            A[rng.randrange(m)][l_] = a_; B[l_][rng.randrange(p)] = b_
+            ck.count("operand pairs with product next to the missing-value code")
         inp.append("matmul %s %s %s" % (vf.fmt_mat(A, n), vf.fmt_mat(B, p), vf.fmt_mat(R0, p)))
         meta.append(("matmul", (m, n, p), A, B, R0))
         ck.count("matmul n%%4=%d" % (n % 4))
@@ -80,6 +94,10 @@ def run(ck, rng, tier):
         w = [rnd_val(rng, None) for _ in range(m)]
         if miss and rng.random() < 0.5:
             v[rng.randrange(n)] = MISSING
+        if rng.random() < 0.2:
+            a_, b_ = plant(rng); i_, j_ = rng.randrange(m), rng.randrange(n)
+            E[i_][j_] = a_; v[j_] = b_; w[i_] = b_
+            ck.count("operand pairs with product next to the missing-value code")
         np_ = rng.choice((1, 2, 3, 5, 8, 16, 24))
         p0 = [0.0] * m if rng.random() < 0.6 else [rnd_val(rng, None) for _ in range(m)]
         q0 = [0.0] * n if rng.random() < 0.6 else [rnd_val(rng, None) for _ in range(n)]
@@ -96,6 +114,9 @@ def run(ck, rng, tier):
             a[rng.randrange(m)] = MISSING
         if rng.random() < 0.2:
             b[rng.randrange(n)] = MISSING
+        if rng.random() < 0.25:
+            a[rng.randrange(m)], b[rng.randrange(n)] = plant(rng)
+            ck.count("operand pairs with product next to the missing-value code")
         inp.append("outer %s %s" % (vf.fmt_vec(a), vf.fmt_vec(b)))
         meta.append(("outer", (m, n), a, b))
         M = rmat(rng, m, n, rng.choice((None, 0, 3)))
@@ -113,6 +134,8 @@ def run(ck, rng, tier):
         inp.append("sort %s %d" % (vf.fmt_mat(M2, n), key))
         meta.append(("sort", (m, n), M2, key))
         u = [rnd_val(rng, None) for _ in range(n)]
+        if rng.random() < 0.25:
+            k_ = rng.randrange(n); b = b[:]; b[k_], u[k_] = plant(rng)
         inp.append("vec %s %s" % (vf.fmt_vec(b), vf.fmt_vec(u)))
         meta.append(("vec", (n,), b, u))
         o = rng.randint(1, 4)
@@ -120,6 +143,11 @@ def run(ck, rng, tier):
         tv = [rnd_val(rng, 0) for _ in range(m)]
         tw = [rnd_val(rng, 0) for _ in range(n)]
         pm = rmat(rng, n, o, 0)
+        if rng.random() < 0.4:
+            k_, i_, j_ = rng.randrange(o), rng.randrange(m), rng.randrange(n)
+            a_, b_ = plant(rng)
+            T[k_][i_][j_] = a_; pm[j_][k_] = b_; tv[i_] = b_; tw[j_] = b_
+            ck.count("operand pairs with product next to the missing-value code")
         inp.append("tensor %s %s %s %s" % (vf.fmt_tensor(T), vf.fmt_vec(tv), vf.fmt_vec(tw), vf.fmt_mat(pm, o)))
         meta.append(("tensor", (o, m, n), T, tv, tw, pm))
         ck.count("outer/unary/sort/vec/tensor")
